@@ -62,8 +62,8 @@ type XHistory struct {
 	// connections to a closed upstream's server that were open 3 s after its
 	// Close returned and still 2 s later
 	LeftAfterClose []string
-	Open     []string
-	Events   []plan.ServerEvent
+	Open           []string
+	Events         []plan.ServerEvent
 	// UDPSent: queries the proxy put on the wire over UDP (seen before loss).
 	UDPSent []udpSent
 }
